@@ -1,4 +1,261 @@
 import Driver.Common
+import AnyioModel.Kernel.Step
 
-/-- placeholder driver: replies `unimplemented` to every request -/
-def main : IO Unit := Driver.serve () (fun s _ => (s, "unimplemented"))
+/-!
+Line protocol for the kernel model.  The harness names objects by its own labels (scopes `L<n>`,
+tasks `T<n>`, futures `F<n>`, groups `G<n>`, all given as bare numbers); the driver maps labels
+to the ids the model allocates.  Every task-level request is prefixed by the label of the task
+that issues it (`-` for a callback context); the driver checks it against `running`.
+-/
+namespace Driver.Kernel
+open AnyioModel AnyioModel.Kernel
+
+structure D where
+  st : State := init
+  scopes : List (Nat × Nat) := []
+  tasks : List (Nat × Nat) := [(0, 0)]
+  futs : List (Nat × Nat) := []
+  groups : List (Nat × Nat) := []
+
+def look (m : List (Nat × Nat)) (k : Nat) : Option Nat := (m.find? (·.1 = k)).map (·.2)
+def rlook (m : List (Nat × Nat)) (v : Nat) : Option Nat := (m.find? (·.2 = v)).map (·.1)
+
+def excStr : Exc → String
+  | .cancelAnyio => "c"
+  | .cancelNative => "n"
+  | .err k => s!"e{k}"
+  | .runtimeError => "r"
+
+def parseExc (s : String) : Option Exc :=
+  if s = "c" then some .cancelAnyio
+  else if s = "n" then some .cancelNative
+  else if s = "r" then some .runtimeError
+  else if s.startsWith "e" then (s.drop 1).toString.toNat?.map .err
+  else none
+
+def evStr : ExcVal → String
+  | .none => "-"
+  | .one e => excStr e
+  | .group es => "g:" ++ ",".intercalate (es.map excStr)
+
+def parseEv (s : String) : Option ExcVal :=
+  if s = "-" then some .none
+  else if s.startsWith "g:" then
+    let parts := ((s.drop 2).toString.splitOn ",").filter (· ≠ "")
+    (parts.mapM parseExc).map .group
+  else (parseExc s).map .one
+
+def parseOptNat (s : String) : Option (Option Nat) :=
+  if s = "-" then some none else s.toNat?.map some
+
+def outStr : Out → String
+  | .none => "ok"
+  | .id _ => "ok"
+  | .resumed r => s!"resumed {evStr r}"
+  | .susp => "susp"
+  | .done ev => s!"done {evStr ev}"
+  | .exit .swallowed => "exit swallowed"
+  | .exit .passed => "exit passed"
+  | .exit (.raised es) => s!"exit raised {evStr (.group es)}"
+  | .rterr => "rterr"
+
+def apply (d : D) (e : Ev) : D × String :=
+  match step d.st e with
+  | none => (d, "DISABLED")
+  | some (st, o) => ({ d with st := st }, outStr o)
+
+/-- task-level request: check the issuing task -/
+def asTask (d : D) (who : String) (k : D → D × String) : D × String :=
+  if who = "-" then
+    if d.st.running.isNone then k d else (d, "WRONGTASK")
+  else
+    match who.toNat? with
+    | none => (d, "bad-op")
+    | some l =>
+      match look d.tasks l with
+      | none => (d, "UNKNOWN")
+      | some t => if d.st.running = some t then k d else (d, "WRONGTASK")
+
+def handle (d : D) : List String → D × String
+  | ["new"] => ({}, "ok")
+  | ["cycle", n] =>
+    match n.toNat? with
+    | some n => apply d (.beginCycle n)
+    | none => (d, "bad-op")
+  | ["run", kind, l] =>
+    match l.toNat? with
+    | none => (d, "bad-op")
+    | some l =>
+      let h : Option Handle :=
+        if kind = "step" then (look d.tasks l).map .step
+        else if kind = "wakeup" then (look d.tasks l).map .wakeup
+        else if kind = "taskdone" then (look d.tasks l).map .taskDone
+        else if kind = "deliver" then (look d.scopes l).map .deliver
+        else if kind = "timeout" then (look d.scopes l).map .timeout
+        else if kind = "sleepdone" then
+          (look d.tasks l).bind (fun t =>
+            match (d.st.tasks t).lib with
+            | .sleeping f => some (.sleepDone f)
+            | _ => none)
+        else none
+      match h with
+      | none => (d, "UNKNOWN")
+      | some h => apply d (.run h)
+  | [who, "mkscope", l, sh, dl] =>
+    match l.toNat?, Driver.parseBool sh, parseOptNat dl with
+    | some l, some sh, some dl =>
+      ignoreTask d who (fun d =>
+        match step d.st (.mkScope sh dl) with
+        | some (st, .id s) => ({ d with st := st, scopes := (l, s) :: d.scopes }, "ok")
+        | _ => (d, "DISABLED"))
+    | _, _, _ => (d, "bad-op")
+  | [who, "enter", l] => withScope d who l (fun s => .enter s)
+  | [who, "exit", l, ev] =>
+    match parseEv ev with
+    | some ev => withScope d who l (fun s => .exit s ev)
+    | none => (d, "bad-op")
+  | [who, "cancel", l] => withScopeAny d who l (fun s => .cancel s)
+  | [who, "shield", l, b] =>
+    match Driver.parseBool b with
+    | some b => withScopeAny d who l (fun s => .setShield s b)
+    | none => (d, "bad-op")
+  | [who, "deadline", l, dl] =>
+    match parseOptNat dl with
+    | some dl => withScopeAny d who l (fun s => .setDeadline s dl)
+    | none => (d, "bad-op")
+  | [who, "yield"] => asTask d who (fun d => apply d .yield)
+  | [who, "mkfut", l] =>
+    match l.toNat? with
+    | some l =>
+      ignoreTask d who (fun d =>
+        match step d.st .mkFut with
+        | some (st, .id f) => ({ d with st := st, futs := (l, f) :: d.futs }, "ok")
+        | _ => (d, "DISABLED"))
+    | none => (d, "bad-op")
+  | [who, "setfut", l] =>
+    match l.toNat?.bind (look d.futs) with
+    | some f => ignoreTask d who (fun d => apply d (.setFut f))
+    | none => (d, "UNKNOWN")
+  | [who, "await", l] =>
+    match l.toNat?.bind (look d.futs) with
+    | some f => asTask d who (fun d => apply d (.awaitFut f))
+    | none => (d, "UNKNOWN")
+  | [who, "sleep", n] =>
+    match n.toNat? with
+    | some n => asTask d who (fun d => apply d (.sleep n))
+    | none => (d, "bad-op")
+  | [who, "chkif"] => asTask d who (fun d => apply d .chkIfCancelled)
+  | [who, "shchk"] => asTask d who (fun d => apply d .shieldedChk)
+  | [who, "ncancel", l] =>
+    match l.toNat?.bind (look d.tasks) with
+    | some u => ignoreTask d who (fun d => apply d (.nativeCancel u))
+    | none => (d, "UNKNOWN")
+  | [who, "uncancel"] => asTask d who (fun d => apply d .uncancel)
+  | [who, "mkgroup", g, l] =>
+    match g.toNat?, l.toNat? with
+    | some g, some l =>
+      ignoreTask d who (fun d =>
+        match step d.st .mkGroup with
+        | some (st, .id gi) =>
+          ({ d with st := st, groups := (g, gi) :: d.groups,
+                    scopes := (l, (st.groups gi).scope) :: d.scopes }, "ok")
+        | _ => (d, "DISABLED"))
+    | _, _ => (d, "bad-op")
+  | [who, "genter", g] =>
+    match g.toNat?.bind (look d.groups) with
+    | some g => asTask d who (fun d => apply d (.groupEnter g))
+    | none => (d, "UNKNOWN")
+  | [who, "spawn", g, t, l] =>
+    match g.toNat?.bind (look d.groups), t.toNat?, l.toNat? with
+    | some g, some t, some l =>
+      ignoreTask d who (fun d =>
+        match step d.st (.spawn g) with
+        | some (st, .id u) =>
+          ({ d with st := st, tasks := (t, u) :: d.tasks,
+                    scopes := (l, ((st.tasks u).hscope).getD 0) :: d.scopes }, "ok")
+        | some (st, o) => ({ d with st := st }, outStr o)
+        | none => (d, "DISABLED"))
+    | _, _, _ => (d, "UNKNOWN")
+  | [who, "aexit", g, ev] =>
+    match g.toNat?.bind (look d.groups), parseEv ev with
+    | some g, some ev => asTask d who (fun d => apply d (.aexit g ev))
+    | _, _ => (d, "UNKNOWN")
+  | [who, "start", g, t, l] =>
+    match g.toNat?.bind (look d.groups), t.toNat?, l.toNat? with
+    | some g, some t, some l =>
+      asTask d who (fun d =>
+        match step d.st (.start g) with
+        | some (st, .id u) =>
+          ({ d with st := st, tasks := (t, u) :: d.tasks,
+                    scopes := (l, ((st.tasks u).hscope).getD 0) :: d.scopes }, "susp")
+        | some (st, o) => ({ d with st := st }, outStr o)
+        | none => (d, "DISABLED"))
+    | _, _, _ => (d, "UNKNOWN")
+  | [who, "started"] => asTask d who (fun d => apply d .started)
+  | [who, "hcancel", t] =>
+    match t.toNat?.bind (look d.tasks) with
+    | some u => ignoreTask d who (fun d => apply d (.handleCancel u))
+    | none => (d, "UNKNOWN")
+  | [who, "hwait", t] =>
+    match t.toNat?.bind (look d.tasks) with
+    | some u => asTask d who (fun d => apply d (.handleWait u))
+    | none => (d, "UNKNOWN")
+  | [who, "finish", ev] =>
+    match parseEv ev with
+    | some ev => asTask d who (fun d => apply d (.finish ev))
+    | none => (d, "bad-op")
+  -- queries
+  | ["q", "cancelling", t] =>
+    match t.toNat?.bind (look d.tasks) with
+    | some u => (d, toString (d.st.tasks u).ncancel)
+    | none => (d, "UNKNOWN")
+  | ["q", "scope", l] =>
+    match l.toNat?.bind (look d.scopes) with
+    | some s =>
+      let sc := d.st.scopes s
+      (d, s!"cc={Driver.bool01 sc.cancelCalled} caught={Driver.bool01 sc.caught} shield={Driver.bool01 sc.shield}")
+    | none => (d, "UNKNOWN")
+  | ["q", "status", t] =>
+    match t.toNat?.bind (look d.tasks) with
+    | some u =>
+      let tk := d.st.tasks u
+      let cc := match tk.hscope with
+        | some hs => (d.st.scopes hs).cancelCalled
+        | none => false
+      let s :=
+        if !tk.finished then (if cc then "cancelling" else "pending")
+        else match tk.hexc with
+          | .none => "finished"
+          | e => if e.isCancelledError then "cancelled" else s!"failed {evStr e}"
+      (d, s)
+    | none => (d, "UNKNOWN")
+  | ["q", "idle"] =>
+    (d, s!"ready={d.st.ready.length + d.st.cur.length} timers={d.st.timers.length}")
+  | ["q", "effdl", t] =>
+    match t.toNat?.bind (look d.tasks) with
+    | some u =>
+      match (d.st.tasks u).scope with
+      | none => (d, "inf")
+      | some s =>
+        match effDeadlineGo (d.st.nScopes + 1) d.st (some s) none with
+        | none => (d, "-inf")
+        | some none => (d, "inf")
+        | some (some v) => (d, toString v)
+    | none => (d, "UNKNOWN")
+  | _ => (d, "bad-op")
+where
+  /-- requests that may be issued by a task or from a callback: only check a named task -/
+  ignoreTask (d : D) (who : String) (k : D → D × String) : D × String :=
+    if who = "-" then k d else asTask d who k
+  withScope (d : D) (who l : String) (mk : Nat → Ev) : D × String :=
+    match l.toNat?.bind (look d.scopes) with
+    | some s => asTask d who (fun d => apply d (mk s))
+    | none => (d, "UNKNOWN")
+  withScopeAny (d : D) (who l : String) (mk : Nat → Ev) : D × String :=
+    match l.toNat?.bind (look d.scopes) with
+    | some s => ignoreTask d who (fun d => apply d (mk s))
+    | none => (d, "UNKNOWN")
+
+end Driver.Kernel
+
+def main : IO Unit := Driver.serve ({} : Driver.Kernel.D) Driver.Kernel.handle
